@@ -1271,6 +1271,9 @@ class FD:
                 not hasattr(recv, attr):
             # a concrete Python value that simply has no such method: CPython's answer is AttributeError
             raise Raised('AttributeError', "'%s' object has no attribute '%s'" % (type(recv).__name__, attr))
+        if getattr(recv, '_fd_plain_function', False) and not hasattr(recv, attr):
+            # a harness value that stands for an ordinary Python function (nothing more): no such method
+            raise Raised('AttributeError', "'function' object has no attribute '%s'" % attr)
         raise Inconclusive('fdeval: method %s on %r' % (attr, recv))
 
     # -- statements --------------------------------------------------------------------------
